@@ -100,6 +100,18 @@ class SArr(np.ndarray):
             return wrap(np.add.reduce(a, axis=axis))
         return np.asarray(self).sum(axis=axis, dtype=dtype, out=out, **kw)
 
+    def mean(self, axis=None, dtype=None, out=None, **kw):
+        if axis is None and self.dtype == object and out is None and self.size:
+            return core.ssum(np.asarray(self).ravel(), 0) / self.size  # exact rational
+        return np.asarray(self).mean(axis=axis, dtype=dtype, out=out, **kw)
+
+    def std(self, axis=None, dtype=None, out=None, **kw):
+        if axis is None and self.dtype == object and out is None and any(is_sym(v) for v in np.asarray(self).ravel()):
+            r = core.fresh_real()  # a square root: left uninterpreted (non-negative), nothing may depend on its value
+            core.assume(r >= 0)
+            return r
+        return np.asarray(self).std(axis=axis, dtype=dtype, out=out, **kw)
+
     def all(self, axis=None, out=None, **kw):
         if axis is None and self.dtype == object:
             return core.sand(*list(np.asarray(self).ravel()))
@@ -501,6 +513,13 @@ def sym_sum(xs, start=0):
 
 
 def sym_round(x, n=None):
+    if isinstance(x, SymReal) and n is None:
+        # Python's round(): to the nearest integer, ties to even
+        z3 = core.z3
+        f = z3.ToInt(x.t)
+        d = x.t - z3.ToReal(f)
+        half = z3.RealVal(1) / 2
+        return core.SymInt(z3.If(d < half, f, z3.If(d > half, f + 1, z3.If(f % 2 == 0, f, f + 1))))
     if is_sym(x):
         return x
     return builtins.round(x, n) if n is not None else builtins.round(x)
